@@ -179,4 +179,16 @@ PROPS["C10"] = {
     "level_note": "Partial: rename atomicity and inode semantics are the kernel's. Trusted: Lean kernel; strace parsing; the hook commit (build tag verif).",
 }
 
+PROPS["C09"] = {
+    "level": "translation_validation",
+    "streams": ["codec"],
+    "timeout": 1800,
+    "trusted_base": ["encoding/json, gopkg.in/yaml.v3 (writers) and sigs.k8s.io/yaml / yaml.v2 (reader): third-party text codecs, entering the theorem only through the law CodecOK; the sweep tests that law on the real libraries",
+                     "factgen F3 (struct tags)"],
+    "assumptions": ["values of the Go type cdi.Spec: integers within their field types, map keys unique"],
+    "technique": "Lean 4 proof of the data-model round trip (decodeSpec . encodeSpec = id for every typed Spec; tags agree) parametric in a text-codec law + translation validation of that law: whole-system WriteSpec/ReadSpec round trips and a sweep of the string space through both real codecs",
+    "level_text": "Kernel-checked: the json and yaml struct tags coincide for every field (regenerated table), and for every value of the Go type cdi.Spec - all optional fields, nil entries, integer extremes - decoding the JSON value the library encodes returns exactly that Spec; hence with any text codec that preserves the document, the file written under a .json, .yaml or extension-less name reads back equal and both encodings are interchangeable. The codec law itself is third-party behaviour and is validated, not proved: every run writes Specs filled with YAML-sensitive spellings and integer extremes through Cache.WriteSpec under all three kinds of name and reads them back with cdi.ReadSpec and through a cache, and sweeps every BMP code point (and samples of the other planes) in several contexts through both writer/reader pairs. The sweep pins two classes of strings that do not survive (known findings); any other failure is a violation.",
+    "level_note": "Partial: string survival in the text codecs is tested, not proved. Known findings: JSON files with U+007F-U+009F/U+FFFE/U+FFFF; YAML files with multi-line strings starting with a space or line break.",
+}
+
 NOT_APPLICABLE = {}
